@@ -196,7 +196,7 @@ def valid_b64(e):
 
 def classify(o):
     if o['op'] == 'rt':
-        return {'op': 'rt', 'impl': o['impl'], 'kind': 'encoding-wrong' if bytes(o['e']) != base64.b64encode(bytes(o['s'])) else 'round-trip-broken'}
+        return {'op': 'rt', 'impl': o['impl'], 'kind': 'encoding-wrong' if bytes(o['e']) != base64.b64encode(bytes(o['s'])) or not o.get('raweq', True) else 'round-trip-broken'}
     txt = bytes(o['e'] if o['op'] == 'dec' else o['hdr'])
     cred = txt if o['op'] == 'dec' else (txt.split(None, 1) + [b''])[1] if txt.split() else b''
     stripped = bytes(c for c in cred if c not in b' \t\r\n\x0b\x0c')
@@ -252,7 +252,8 @@ def run(ctx):
             continue
         reported.add(key)
         if o['op'] == 'rt':
-            what = 'base64 (%s) of %r gave %r, decoded back as ok=%s %r' % (o['impl'], bytes(o['s'])[:40], bytes(o['e'])[:60], o['upd'] and o['fin'], bytes(o['out'])[:40])
+            what = 'base64 (%s) of %r gave %r%s, decoded back as ok=%s %r' % (o['impl'], bytes(o['s'])[:40], bytes(o['e'])[:60],
+                                                                             '' if o.get('raweq', True) else ' (base64_encode_raw gave another text)', o['upd'] and o['fin'], bytes(o['out'])[:40])
         elif o['op'] == 'dec':
             what = 'base64 decode (%s) of %r: update=%s final=%s out=%r is not what Base64.tla allows (%s)' % (
                 o['impl'], bytes(o['e'])[:60], o['upd'], o['fin'], bytes(o['out'])[:40], cls['kind'])
